@@ -1488,7 +1488,7 @@ func (x *explorer) opaque(st *state, fr *frame, name string, obj *types.Func, st
 		all = append([]*Term{recv}, args...)
 	}
 	if isPureCall(pkg, name, obj, sig) {
-		t := &Term{Op: "call", Name: name, Args: all, Callee: obj}
+		t := &Term{Op: "call", Name: name, Args: all, Callee: obj, Site: instr, Clock: len(st.events)}
 		if sig != nil && sig.Results().Len() == 1 {
 			t.Type = sig.Results().At(0).Type()
 		}
